@@ -43,7 +43,7 @@ RULE = (
 TRUSTED_BASE = [
     "Lean 4.33 kernel; axioms subset of {propext, Classical.choice, Quot.sound}",
     "hand-written models LiquidVerif/Model/Lex.lean (pieces, assemble, matchesOf, _tokenize_template line by line) and Model/LexRender.lean (Parser._parse + the parse methods of content/comment/doc/inline-comment tags, render fold)",
-    "that the hand-written string scanner `scan` (Model/LexScan.lean) equals `rules.finditer` of the compiled regex on strings — measured by stream `scan` on arbitrary (mostly malformed) strings under default, template-comment and custom delimiters; and that `scan (assemble d ps) = matchesOf d 0 ps` on well-formed piece lists — proved for text pieces, output statements, shorthand comments, offsets and tiling (scan_assemble_partial, scan_assemble_text_output_short), for tag / raw / doc pieces evaluated by the driver on every case (`scan_eq`) and compared with finditer by the `match` level",
+    "that the hand-written string scanner `scan` (Model/LexScan.lean) equals `rules.finditer` of the compiled regex on strings — measured by stream `scan` on arbitrary (mostly malformed) strings under default, template-comment and custom delimiters. (That `scan (assemble d ps) = matchesOf d 0 ps` on well-formed piece lists is PROVED for the default delimiters with template comments off or on — scan_assemble_default — and additionally evaluated by the driver on every case, `scan_eq`; for other plain delimiter sets it is proved up to the per-piece hypothesis AllMarkupFound and evaluated likewise.)",
     "the liquid tag's line scanner model Model/LiquidLines.lean (C20's, tied there by its own stream; here it drives the render level of every liquid piece)",
     "CPython str.lstrip()/rstrip()/isspace and regex \\s agree with the model's 29-code-point whitespace table (stream spaces, exhaustive over all code points)",
     "correspondence harness harness/props/c10.py + Driver/C10.lean; the Python assemble() is compared with the model's assemble on every case",
@@ -58,8 +58,8 @@ ASSUMPTIONS = [
 ]
 MANIFEST = {
     "technique": "Lean 4 proof (induction over the piece list of a template, for all pieces, paddings, markers and delimiters) of a line-by-line model of _tokenize_template + parser/render of the anchored tags; a deterministic string-level scanner for the rule alternation; differential correspondence at four levels (regex matches, tokens, parsed nodes, rendered output sync+async) and scanner-vs-regex on arbitrary strings, exhaustive over marker combinations x piece kinds x neighbours",
-    "text": "Theorems lex_refines_spec, nodes_split, strip_rules, strip_between, text_verbatim, whitespace_only_text, markup_item, raw_verbatim, comments_silent, render_strip_rules, render_raw_verbatim, render_comments_silent, wf_text_is_clean, tokens_start_in_source, liquid_inner_tokens_in_source, scan_text, scan_assemble_text_output, scan_assemble_text_output_short, lstrip_spec, rstrip_spec hold for every piece list with no bound on length, nesting depth of comments, padding or text; the model is tied to liquid/lex.py by comparing finditer matches, token lists (values and start offsets), parsed node lists and rendered output on every generated case.",
-    "note": "Trusted: Lean kernel (axioms propext/Classical.choice/Quot.sound only), the hand model, the harness, and that the hand-written string scanner `scan` equals the compiled regex's finditer (measured on arbitrary strings by stream scan, not proved). Partial: scan_assemble_partial / string_level_refines_spec_partial: the string-level statement (scanner on the assembled string = matchesOf, hence string -> nodes = specification) is proved for text pieces, offsets and tiling, and at full strength for templates of text, output statements and shorthand comments (scan_assemble_text_output_short); for tag, raw and doc pieces 'the scanner finds the piece' (AllMarkupFound) remains a hypothesis, evaluated by the driver on every case. Three defects of the original tree were repaired on fix-C10 (endraw's right marker ignored; trailing newline of a template swallowed after a right-controlled tag; empty liquid tag consuming the following token); the model mirrors the repaired code.",
+    "text": "Theorems lex_refines_spec, nodes_split, strip_rules, strip_between, text_verbatim, whitespace_only_text, markup_item, raw_verbatim, comments_silent, render_strip_rules, render_raw_verbatim, render_comments_silent, wf_text_is_clean, tokens_start_in_source, liquid_inner_tokens_in_source, scan_text, scan_assemble_default, string_level_refines_spec, lstrip_spec, rstrip_spec hold for every piece list with no bound on length, nesting depth of comments, padding or text; the model is tied to liquid/lex.py by comparing finditer matches, token lists (values and start offsets), parsed node lists and rendered output on every generated case.",
+    "note": "Trusted: Lean kernel (axioms propext/Classical.choice/Quot.sound only), the hand model, the harness, and that the hand-written string scanner `scan` equals the compiled regex's finditer (measured on arbitrary strings by stream scan, not proved). The string-level statement (scanner on the assembled string = matchesOf, hence source string -> nodes = specification) is proved at full strength for the default delimiters with template comments off or on (scan_assemble_default, string_level_refines_spec); for other plain delimiter sets it is scan_assemble_partial (residual hypothesis: each markup piece alone is found), evaluated by the driver on every case. Three defects of the original tree were repaired on fix-C10 (endraw's right marker ignored; trailing newline of a template swallowed after a right-controlled tag; empty liquid tag consuming the following token); the model mirrors the repaired code.",
 }
 
 _ESC = re.compile("\x01(\\d+);")
